@@ -70,6 +70,49 @@ def main() -> None:
         if kind == "raise" or (got != want and got != want3):
             net.fail("silent-drop-entry", f"entry point {entry} accepted the options but the bytes ({len(data)}) do not parse back to the input",
                      inp, got, want)
+    # rdflib plugin: explicit multi-frame flows with delimited and non-delimited output
+    import rdflib
+    from pyjelly.serialize.streams import SerializerOptions, TripleStream as TS
+    from pyjelly.options import StreamParameters
+    for it in range(30 if net.quick else 300):
+        n = rng.randrange(1, 14)
+        delimited = rng.random() < 0.5
+        fname = rng.choice(["FlatTriples", "Bounded", "Manual"])
+        g = rdflib.Graph()
+        for i in range(n):
+            g.add((rdflib.URIRef(f"http://ex.org/s{i}"), rdflib.URIRef("http://ex.org/p"), rdflib.Literal(str(i))))
+        inp = {"entry": "rdflib Graph.serialize", "triples": n, "delimited": delimited, "flow": fname}
+        def run():
+            opts = SerializerOptions(flow=flow_makers[fname](1), logical_type=1, params=StreamParameters(delimited=delimited))
+            data = g.serialize(format="jelly", options=opts, stream=TS.for_rdflib(options=opts), encoding="jelly")
+            back = rdflib.Graph(); back.parse(data=data, format="jelly")
+            return len(back)
+        kind, got = guarded(run)
+        net.case(inp, nontrivial=(kind == "ok"))
+        if kind == "ok" and got != n:
+            net.fail("silent-drop-rdflib", f"rdflib serialisation accepted the options but only {got} of {n} triples are in the file", inp, got, n)
+    # a malformed item (too few terms) in the input must make the call fail, not end the output early
+    for it in range(30 if net.quick else 300):
+        stmts = gen_statements(rng, 2, rng.randrange(3, 7), quoted_ok=False)
+        bad_at = rng.randrange(1, len(stmts))
+        entry = rng.choice(["stream_frames", "flat_to_file"])
+        inp = {"entry": entry, "short_item_at": bad_at, "statements": stmts}
+        def run():
+            def src():
+                for i, s in enumerate(stmts):
+                    yield stmt_to_generic(s[:3]) if i == bad_at else stmt_to_generic(s)
+            opts = make_options(2, (16, 8, 8), logical=2, frame_size=2)
+            if entry == "stream_frames":
+                return write_frames(stream_frames(make_stream(2, opts), src()))
+            out = io.BytesIO(); flat_stream_to_file(src(), out, opts); return out.getvalue()
+        kind, data = guarded(run)
+        net.case(inp, nontrivial=True)
+        if kind == "ok":
+            k2, got = guarded(lambda: parse_generic_flat(data))
+            n_ok = len(got) if k2 == "ok" else -1
+            if n_ok < len(stmts) - 1:
+                net.fail("silent-truncation", f"a quad sequence containing a three-term item was written without error, but only {n_ok} of {len(stmts) - 1} well-formed statements are in the bytes", inp, got)
     net.finish("bounded", "3 stream classes x 8 logical types x delimited x {inferred + 6 flow classes} x frame sizes x 1..5 statements; flat_/grouped_stream_to_file with guessed streams",
                "each case = one lattice point with a random statement list; non-trivial = the configuration was accepted (constructed without raising)")
-main()
+if __name__ == "__main__":
+    main()
